@@ -81,13 +81,13 @@ Definition wf_bucket (b : bucket) : bool :=
 
 (* ------------------------------------------------------------------ guards *)
 
-(** F11, class no-candidate-le-end, on the candidate rows the plan selects *)
+(** what is left of the guard after the fixes of F11 and F4: the candidates stay below the int32 row
+    limit of trimResultsToLimit ([var_candidates] is always [Ok] now) *)
 Definition guard_C11 (b : bucket) (s e : qtime) : bool :=
   if b_var b then
     match var_candidates b (q_go s) (q_go e) with
-    | Ok c => guard_trim (q_go s) (q_go e) c
-              && (Z.of_nat (length c) <=? maxInt32)   (* below the int32 row limit of trimResultsToLimit *)
-    | _ => false               (* the second-stage buffer panic is C09's finding F4 *)
+    | Ok c => Z.of_nat (length c) <=? maxInt32
+    | _ => false
     end
   else true.
 
